@@ -2,18 +2,31 @@ import PewModel.CsvDir
 /-!
 # C03 — Thermo iCap (Qtegra) CSV import (`pewlib.io.thermo`)
 
-Token level: a file is a `Table` — its text lines split at the field delimiter (the UTF-8 BOM is
-removed by the `utf-8-sig` codec, the delimiter is the first character of both layouts).  The
-decimal-comma replacement (`line.replace(",", ".")`, done by the code on whole data lines before
+Token level: a file is a `Table` — the lines of the decoded text (the UTF-8 BOM is removed by the
+`utf-8-sig` codec, universal newlines turn every terminator into `\n`), each line **with its
+terminator** (every line but possibly the last ends in `\n`), split at the field delimiter
+(`splitLine`; the delimiter is the first character of both layouts).  Keeping the terminator matters:
+the four header rows of the rows layout are split raw (`fp.readline().split(delimiter)`), only the
+lines handed to `np.genfromtxt` are stripped.
+The decimal-comma replacement (`line.replace(",", ".")`, done by the code on whole data lines before
 they are split) is applied field by field, which is the same whenever the delimiter is not `,`.
-`float()` / `int()` / `str()` are external: `Ext.parse`, `Ext.readNat` and the `sh : Nat → String`
+`float()` / `int()` / `str()` are external: `Ext.parse`, `Ext.readInt` and the `sh : Nat → String`
 argument of the renderers.
 
-Mechanism: `readCols` (MainRuns line filter by channel substring, first-appearance name order,
-per-name line gather and transpose, shape `(samples, max scan + 1)`), `readRows` (four header rows →
-run ∧ channel column mask → per-name column gather), `readParams`, `sniff`, `load`.
+Mechanism: `gfSplit` (the line handling of `np.genfromtxt`: comment cut at `#`, `strip(" \r\n")`,
+blank lines skipped), `readCols` (MainRuns line filter by channel substring, equal field counts,
+loose conversion of the scan number, first-appearance name order, per-name line gather, transpose and
+broadcast, shape `(samples, max scan + 1)`), `readRows` (four raw header rows → run ∧ channel column
+mask with NumPy broadcasting of a one-field row → `usecols` gather of every non-blank sample row →
+per-name column gather), `readParams`, `sniff`, `load`.
 Specification: `specImg` — pixel [sample, scan] of element `e` is the exported token of the
-requested channel.  `renderCols` / `renderRows` are the two export layouts of one acquisition.
+requested channel; `specParams` / `specScantime`; `otherFile`.  `renderCols` / `renderRows` are the
+two export layouts of one acquisition.
+
+Not modelled (the generators never write them; every one is an exception or a renamed field in
+NumPy): an element label that is empty or not a valid structured-dtype field name, a scan number
+outside int64, a delimiter that occurs inside `MainRuns` or a channel name, the `,` delimiter
+together with decimal commas.
 -/
 namespace Pew.Thermo
 
@@ -22,14 +35,18 @@ abbrev Table := List Row
 
 /-- the external conversions -/
 structure Ext (α : Type) where
-  parse : String → α            -- `float(token)`, NaN when it fails
-  readNat : String → Option Nat -- `int(token)`
+  parse : String → α            -- `float(token)`, NaN when it fails (genfromtxt's loose conversion)
+  readInt : String → Option Int -- `int(token)`
 
 /-- imported image: `planes[e][sample][scan]` for element `names[e]` -/
 structure Img (α : Type) where
   names : List String
   planes : List (List (List α))
   deriving Repr, DecidableEq
+
+/-- pixel [sample `i`, scan `s`] of the `e`-th element -/
+def Img.pixel {α : Type} (img : Img α) (e i s : Nat) : Option α :=
+  ((img.planes[e]?).bind (·[i]?)).bind (·[s]?)
 
 /-! ## strings -/
 
@@ -56,6 +73,60 @@ def lineStarts (r : Row) : Bool :=
   | [] => false
   | f :: _ => "MainRuns".toList.isPrefixOf f.toList
 
+/-- `line.split(delimiter)` on characters -/
+def splitC (d : Char) : List Char → List (List Char)
+  | [] => [[]]
+  | c :: t =>
+    if c == d then [] :: splitC d t
+    else match splitC d t with
+      | h :: r => (c :: h) :: r
+      | [] => [[c]]
+
+def splitLine (d : Char) (s : String) : Row := (splitC d s.toList).map String.ofList
+
+/-- the table of a decoded text given as its lines (terminators kept); `delimiter = line[0]` of the
+first line when none is passed (`none` = the `IndexError` of an empty first line) -/
+def tableOf (explicit : Option Char) (lines : List String) : Option Table :=
+  match explicit with
+  | some d => some (lines.map (splitLine d))
+  | none =>
+    match (lines.headD "").toList with
+    | [] => none
+    | d :: _ => some (lines.map (splitLine d))
+
+/-! ## the line handling of `np.genfromtxt` (`LineSplitter._delimited_splitter`) -/
+
+def hasHash (s : String) : Bool := s.toList.contains '#'
+
+/-- `line.split("#")[0]` on a split line -/
+def cutComment : Row → Row
+  | [] => []
+  | f :: t => if hasHash f then [String.ofList (f.toList.takeWhile (fun c => c != '#'))] else f :: cutComment t
+
+def isWs (c : Char) : Bool := c == ' ' || c == '\r' || c == '\n'
+
+def lstrip (s : String) : String := String.ofList (s.toList.dropWhile isWs)
+def rstrip (s : String) : String := String.ofList (s.toList.reverse.dropWhile isWs).reverse
+
+def mapHead (g : String → String) : Row → Row
+  | [] => []
+  | f :: t => g f :: t
+
+def mapLast (g : String → String) : Row → Row
+  | [] => []
+  | [f] => [g f]
+  | f :: t => f :: mapLast g t
+
+/-- the fields `genfromtxt` sees of one line: the comment is cut, the line is stripped of blanks and
+line ends at both ends (fields in the middle keep theirs), an empty line has no fields (it is skipped) -/
+def gfSplit (r : Row) : Row :=
+  let s := mapLast rstrip (mapHead lstrip (cutComment r))
+  if s == [""] then [] else s
+
+/-- the non-blank lines as `genfromtxt` sees them, after the optional decimal-comma replacement -/
+def gfLines (comma : Bool) (lines : Table) : Table :=
+  (lines.map (fun r => gfSplit (r.map (fixDec comma)))).filter (fun r => !r.isEmpty)
+
 /-! ## small array helpers -/
 
 def firstAppAux (seen : List String) : List String → List String
@@ -65,16 +136,20 @@ def firstAppAux (seen : List String) : List String → List String
 /-- `names[np.argsort(np.unique(names, return_index=True)[1])]`: distinct values by first appearance -/
 def firstApp (l : List String) : List String := firstAppAux [] l
 
-def maxNat (l : List Nat) : Nat := l.foldl max 0
+/-- `np.amax` of a non-empty integer array -/
+def maxInt : List Int → Int
+  | [] => 0
+  | a :: t => t.foldl max a
 
 /-- rows × n → n × rows -/
 def transposeN {α : Type} (n : Nat) (rows : List (List α)) : List (List α) :=
   (List.range n).map (fun i => rows.filterMap (fun r => r[i]?))
 
-/-- `structured[name] = X` for a target with `w` scans: widths must agree (a single column is broadcast) -/
-def fitWidth {α : Type} (w : Nat) (plane : List (List α)) : Option (List (List α)) :=
-  if plane.all (fun r => r.length == w) then some plane
-  else if plane.all (fun r => r.length == 1) then some (plane.map (fun r => (List.replicate w r).flatten))
+/-- `structured[name] = X` where the target has `w` scans and every row of `X` has `cnt` entries:
+the widths must agree, or `cnt = 1` and the single column is broadcast -/
+def fitCols {α : Type} (w cnt : Nat) (plane : List (List α)) : Option (List (List α)) :=
+  if cnt == w then some plane
+  else if cnt == 1 then some (plane.map (fun r => (List.replicate w r).flatten))
   else none
 
 def allSome {β : Type} : List (Option β) → Option (List β)
@@ -82,40 +157,48 @@ def allSome {β : Type} : List (Option β) → Option (List β)
   | none :: _ => none
   | some a :: t => (allSome t).map (a :: ·)
 
+/-- the common field count of the lines (`genfromtxt` without `usecols`: every line must have as many
+fields as the first one) -/
+def sameLen : Table → Option Nat
+  | [] => none
+  | r :: t => if t.all (fun q => q.length == r.length) then some r.length else none
+
 /-! ## samples in columns -/
 
 structure ColRec (α : Type) where
-  scan : Nat
+  scan : Int
   name : String
   data : List α
 
-/-- one `MainRuns` line under the record dtype (run U8, scan int, name U32, type U7, data f8 × n) -/
-def parseColLine {α : Type} (x : Ext α) (comma : Bool) (n : Nat) (r : Row) : Option (ColRec α) :=
-  match r with
-  | _ :: scan :: name :: _ :: rest =>
-    if rest.length < n then none else
-    match x.readNat (fixDec comma scan) with
-    | none => none
-    | some s => some { scan := s, name := trunc 32 (fixDec comma name), data := (rest.take n).map (fun f => x.parse (fixDec comma f)) }
-  | _ => none
+/-- one `MainRuns` line of at least `4 + n` fields under the record dtype (run U8, scan int, name
+U32, type U7, data f8 × n); conversion is loose: a scan field that is not an integer gives −1 -/
+def parseColLine {α : Type} (x : Ext α) (n : Nat) (r : Row) : ColRec α :=
+  { scan := (x.readInt (r.getD 1 "")).getD (-1), name := trunc 32 (r.getD 2 ""),
+    data := ((r.drop 4).take n).map x.parse }
 
-/-- `_icap_csv_columns_read(path, line_type=chan, …)`; `none` = an exception -/
+/-- `_icap_csv_columns_read(path, line_type=chan, …)`; `none` = an exception (`ValueError` or
+`IndexError`).  Lines that `genfromtxt` skips (blank after the comment cut) do not count; lines of
+unequal field count, fewer than `4 + n` fields, no selected line, a single selected line (0-d record),
+a name whose line count is neither the scan count nor 1, or a maximum scan below −1 all raise. -/
 def readCols {α : Type} (x : Ext α) (comma : Bool) (chan : String) (t : Table) : Option (Img α) :=
   match t with
   | [] => none
   | first :: rest =>
-    let n := first.countP (fun f => f != "")          -- count_nonzero(genfromtxt([line], dtype="U1"))
+    let n := (gfSplit first).countP (fun f => f != "")   -- count_nonzero(genfromtxt([line], dtype="U1"))
     if n == 0 then none else
-    let sel := rest.filter (fun r => lineStarts r && lineHas chan r)
-    if sel.isEmpty then none else                       -- amax of an empty array
+    let sel := gfLines comma (rest.filter (fun r => lineStarts r && lineHas chan r))
     if sel.length == 1 then none else                   -- genfromtxt gives a 0-d record: no axis 1
-    match allSome (sel.map (parseColLine x comma n)) with
-    | none => none
-    | some recs =>
+    match sameLen sel with
+    | none => none                                      -- no line (amax of an empty array) or ragged lines
+    | some nb =>
+      if nb < 4 + n then none else                      -- tuple shorter than the record
+      let recs := sel.map (parseColLine x n)
       let names := firstApp (recs.map (·.name))
-      let w := maxNat (recs.map (·.scan)) + 1
+      let w := maxInt (recs.map (·.scan)) + 1
+      if w < 0 then none else                           -- negative dimension
       match allSome (names.map (fun e =>
-          fitWidth w (transposeN n ((recs.filter (fun r => r.name == e)).map (·.data))))) with
+          let mine := recs.filter (fun r => r.name == e)
+          fitCols w.toNat mine.length (transposeN n (mine.map (·.data))))) with
       | none => none
       | some planes => some { names := names, planes := planes }
 
@@ -134,33 +217,46 @@ def zipHdr : Row → Row → Row → Row → List Hdr
 /-- `run_mask ∧ type_mask` for one column -/
 def colOk (chan : String) (h : Hdr) : Bool := trunc 8 h.run == "MainRuns" && trunc 7 h.type == chan
 
+/-- NumPy broadcasting of a one-element mask to length `L` -/
+def bcast (L : Nat) (r : Row) : Row := if r.length == 1 then List.replicate L (r.headD "") else r
+
 /-- the reader once the four header rows are zipped into per-column headers -/
 def readRowsH {α : Type} (x : Ext α) (comma : Bool) (chan : String) (hdr : List Hdr) (body : Table) : Option (Img α) :=
   if !(hdr.any (fun h => trunc 8 h.run == "MainRuns")) then none else
   let sel := hdr.filter (colOk chan)
   if sel.isEmpty then none else                       -- amax of an empty array
-  match allSome (sel.map (fun h => x.readNat (trunc 16 h.scan))) with
-  | none => none
+  match allSome (sel.map (fun h => x.readInt (trunc 16 h.scan))) with
+  | none => none                                      -- `.astype(int)` is strict
   | some scanNos =>
     let selNames := sel.map (fun h => trunc 32 h.name)
-    if body.isEmpty || body.any (fun r => r.length < hdr.length) then none else
-    -- genfromtxt(usecols=flatnonzero(col_mask)): the selected fields of every sample row, with their names
-    let data : List (List (α × String)) := body.map (fun r =>
-      ((r.zip hdr).filter (fun p => colOk chan p.2)).map (fun p => (x.parse (fixDec comma p.1), trunc 32 p.2.name)))
+    -- genfromtxt(usecols=flatnonzero(col_mask)): the selected fields of every non-blank sample row, with their names
+    let data : List (List (α × String)) := (gfLines comma body).map (fun r =>
+      ((r.zip hdr).filter (fun p => colOk chan p.2)).map (fun p => (x.parse p.1, trunc 32 p.2.name)))
+    if data.any (fun r => r.length != sel.length) then none else   -- a row that ends before a selected column
+    let w := maxInt scanNos + 1
+    if w < 0 then none else                           -- negative dimension
     let unames := firstApp selNames
-    let w := maxNat scanNos + 1
     match allSome (unames.map (fun e =>
-        fitWidth w (data.map (fun r => (r.filter (fun p => p.2 == e)).map (·.1))))) with
+        fitCols w.toNat (selNames.filter (fun nm => nm == e)).length
+          (data.map (fun r => (r.filter (fun p => p.2 == e)).map (·.1))))) with
     | none => none
     | some planes => some { names := unames, planes := planes }
 
-/-- `_icap_csv_rows_read(path, col_type=chan, …)`; `none` = an exception -/
+/-- `_icap_csv_rows_read(path, col_type=chan, …)`; `none` = an exception (`ValueError` or
+`IndexError`).  Header rows past the end of the file read as one empty field; the run and channel
+masks broadcast when one of them has a single field; the scan and name rows must be as long as the
+mask.  No sample row at all gives an image with no samples; a sample row is accepted as soon as it
+reaches the last selected column; blank rows are skipped. -/
 def readRows {α : Type} (x : Ext α) (comma : Bool) (chan : String) (t : Table) : Option (Img α) :=
-  match t with
-  | runs :: scans :: names :: types :: body =>
-    if !(runs.length == scans.length && scans.length == names.length && names.length == types.length) then none else
-    readRowsH x comma chan (zipHdr runs scans names types) body
-  | _ => none
+  let runs := t.getD 0 [""]
+  let scans := t.getD 1 [""]
+  let names := t.getD 2 [""]
+  let types := t.getD 3 [""]
+  let L := max runs.length types.length
+  let runs' := bcast L runs
+  let types' := bcast L types
+  if !(runs'.length == L && types'.length == L && scans.length == L && names.length == L) then none else
+  readRowsH x comma chan (zipHdr runs' scans names types') (t.drop 4)
 
 /-! ## format sniffing and `load` -/
 
@@ -227,7 +323,17 @@ def load (x : Ext V) (delim : Char) (t : Table) (useAnalog : Bool) : LoadResult 
     | none => .readError
     | some img => .ok img (readParams x false comma t)
 
-/-! ## the acquisition and its two export layouts -/
+/-- `load` on the text itself: no delimiter is passed on, so every reader takes the first character
+of the file (an empty file is `unknown` to the sniffer) -/
+def loadText (x : Ext V) (lines : List String) (useAnalog : Bool) : LoadResult :=
+  match (lines.headD "").toList with
+  | [] => .unknownFormat
+  | d :: _ => load x d (lines.map (splitLine d)) useAnalog
+
+/-! ## the acquisition and its two export layouts
+
+Every line ends with the delimiter (as Qtegra writes it) and the line terminator: the last field of
+every rendered line is `"\n"`. -/
 
 /-- one acquisition: `value i s e c` is the exported token of sample `i`, scan `s`, element `e`, channel `c` -/
 structure Acq where
@@ -250,21 +356,32 @@ def enumRows (m k C : Nat) : List (Nat × Nat × Nat) :=
 
 def colLine (sh : Nat → String) (a : Acq) (x : Nat × Nat × Nat) : Row :=
   ["MainRuns", sh x.1, a.elem x.2.1, a.chan x.2.2] ++
-    (List.range a.samples.length).map (fun i => a.value i x.1 x.2.1 x.2.2) ++ [""]
+    (List.range a.samples.length).map (fun i => a.value i x.1 x.2.1 x.2.2) ++ ["\n"]
 
 def renderCols (sh : Nat → String) (a : Acq) : Table :=
-  (["", "", "", ""] ++ a.samples ++ [""]) ::
-  (["", "", "", ""] ++ a.samples.map (fun _ => "<Identifier>") ++ [""]) ::
+  (["", "", "", ""] ++ a.samples ++ ["\n"]) ::
+  (["", "", "", ""] ++ a.samples.map (fun _ => "<Identifier>") ++ ["\n"]) ::
   (enumCols a.nscans a.elements.length a.channels.length).map (colLine sh a)
 
 def renderRows (sh : Nat → String) (a : Acq) : Table :=
   let cells := enumRows a.nscans a.elements.length a.channels.length
-  [ "" :: "" :: cells.map (fun _ => "MainRuns") ++ [""],
-    "" :: "" :: cells.map (fun x => sh x.1) ++ [""],
-    "" :: "" :: cells.map (fun x => a.elem x.2.1) ++ [""],
-    "" :: "" :: cells.map (fun x => a.chan x.2.2) ++ [""] ] ++
+  [ "" :: "" :: cells.map (fun _ => "MainRuns") ++ ["\n"],
+    "" :: "" :: cells.map (fun x => sh x.1) ++ ["\n"],
+    "" :: "" :: cells.map (fun x => a.elem x.2.1) ++ ["\n"],
+    "" :: "" :: cells.map (fun x => a.chan x.2.2) ++ ["\n"] ] ++
   (List.range a.samples.length).map (fun i =>
-    a.samples.getD i "" :: "<Identifier>" :: cells.map (fun x => a.value i x.1 x.2.1 x.2.2) ++ [""])
+    a.samples.getD i "" :: "<Identifier>" :: cells.map (fun x => a.value i x.1 x.2.1 x.2.2) ++ ["\n"])
+
+/-- `delimiter.join(fields)` on characters -/
+def joinC (d : Char) : List (List Char) → List Char
+  | [] => []
+  | [f] => f
+  | f :: t => f ++ d :: joinC d t
+
+def joinLine (d : Char) (r : Row) : String := String.ofList (joinC d (r.map String.toList))
+
+/-- the text of a table, line by line (what the export file holds once decoded) -/
+def renderText (d : Char) (t : Table) : List String := t.map (joinLine d)
 
 /-! ## specification -/
 
@@ -276,6 +393,10 @@ def specImg {α : Type} (x : Ext α) (comma : Bool) (a : Acq) (c : Nat) : Img α
       (List.range a.samples.length).map fun i =>
         (List.range a.nscans).map fun s => x.parse (fixDec comma (a.value i s e c)) }
 
+/-- pixel [sample, scan] of element `e` in the specification image is the exported token of channel `c` -/
+def specPixel {α : Type} (x : Ext α) (comma : Bool) (a : Acq) (c e i s : Nat) : α :=
+  x.parse (fixDec comma (a.value i s e c))
+
 /-- mean interval of the Time channel (of the first element) over all samples and scans -/
 def specScantime (x : Ext V) (comma : Bool) (a : Acq) (c : Nat) : V :=
   nanmean ((List.range a.samples.length).flatMap fun i =>
@@ -283,5 +404,19 @@ def specScantime (x : Ext V) (comma : Bool) (a : Acq) (c : Nat) : V :=
       match x.parse (fixDec comma (a.value i s 0 c)), x.parse (fixDec comma (a.value i (s + 1) 0 c)) with
       | some p, some q => some (q - p)
       | _, _ => none)
+
+/-- the expected parameters: times of the first element, rounded mean interval -/
+def specParams (x : Ext V) (comma : Bool) (a : Acq) (ct : Nat) : Params :=
+  { times := (List.range a.samples.length).map fun i =>
+      (List.range a.nscans).map fun s => x.parse (fixDec comma (a.value i s 0 ct)),
+    scantime := Pew.CsvDir.npRound 4 (specScantime x comma a ct) }
+
+/-- "anything else": a text whose first and third line do not mention `MainRuns` is no export in
+either layout (every export does, `renderRows_not_other` / `renderCols_not_other`); the
+specification of the sniffer on such a file is the constant `unknown` -/
+def otherFile (t : Table) : Bool :=
+  !(lineHas "MainRuns" (t.getD 0 [])) && !(lineHas "MainRuns" (t.getD 2 []))
+
+def specSniffOther : Fmt := .unknown
 
 end Pew.Thermo
